@@ -117,7 +117,7 @@ def run(tier):
                 cases = [{"h": [[1, 1, False]] * h, "r": [[1, 1, False]] * r, "order": o} for o in (None, "rep_first", "interleaved")]
                 nat = native_eval(cases, io=(entry == "io"))
                 if any(o["yielded"] == 0 for o in nat):
-                    d = os.path.join(ROOT, "replays", "C03")
+                    d = os.path.join(__import__("engine.driver").driver.OUT, "replays", "C03")
                     os.makedirs(d, exist_ok=True)
                     path = os.path.join(d, f"{entry}_h{h}_r{r}.json")
                     json.dump({"kind": "script", "script": "harness/r_eval.py",
@@ -135,8 +135,11 @@ def run(tier):
     run.run_conditions([
         Cond("h_eval_order.py", "accepted", 600 if tier == "quick" else 2400, twin="reach", env={"H_LEN": L}),
         Cond("h_eval_order.py", "accepted", 600 if tier == "quick" else 2400, twin="reach", env={"H_LEN": L, "H_IO": "1"}),
-    ], conformance_harnesses=["h_eval_order.py"])
-    run.encoded += ["E1: Evaluator.__init__ + evaluate_individual / IoEvaluator.evaluate_individual executed by CrossHair over all hard/repetition-bound declaration orders of length <= " + L]
+        # the constraints a search is started with are exactly the spec's plus this call's extras (API history)
+        Cond("h_api.py", "calls_are_independent", 600 if tier == "quick" else 2400, twin="reach", env={"H_CALLS": "2" if tier == "quick" else "3"}),
+    ], conformance_harnesses=["h_eval_order.py", "h_api.py"])
+    run.encoded += ["E1: Fandango.init_population (api.py) under a symbolic history of calls with/without extra constraints",
+                    "E1: Evaluator.__init__ + evaluate_individual / IoEvaluator.evaluate_individual executed by CrossHair over all hard/repetition-bound declaration orders of length <= " + L]
     run.extra["smt_queries_nontrivial"] = run.extra.get("smt_queries", 0)
     run.extra["source_sha256_16"] = source_fingerprint(["fandango/evolution/evaluation.py", "fandango/constraints/fitness.py"])
     run.bounds = {"h,r": f"0..{N} (16-bit, h+r>=1)", "soft constraints": 0, "class lemma k": f"1..{K}", "per-constraint total": "<= 1000",
